@@ -20,6 +20,9 @@ type Lexer struct {
 	file   string
 	peeks  []token.Token
 	isEOF  bool
+	// atEOF is true once the underlying reader is exhausted; char 0x00
+	// without it is a NUL byte of the input, not the end of input.
+	atEOF bool
 
 	customs map[string]token.TokenType
 }
@@ -51,6 +54,7 @@ func (l *Lexer) skipBytes(n int) {
 	discarded, err := l.r.Discard(n)
 	if err != nil {
 		l.char = 0x00
+		l.atEOF = true
 	}
 	l.index += discarded
 }
@@ -59,7 +63,11 @@ func (l *Lexer) readChar() {
 	r, _, err := l.r.ReadRune()
 	if err != nil {
 		l.char = 0x00
-		l.index += 1
+		// Point one past the last character, and stay there
+		if !l.atEOF {
+			l.index += 1
+			l.atEOF = true
+		}
 		return
 	}
 	if l.char == 0x0A { // LF
@@ -346,6 +354,10 @@ func (l *Lexer) NextToken() token.Token {
 			t = newToken(token.ILLEGAL, l.char, line, index)
 		}
 	case 0x00: // EOF
+		if !l.atEOF { // NUL byte inside the input
+			t = newToken(token.ILLEGAL, l.char, line, index)
+			break
+		}
 		t.Literal = ""
 		t.Type = token.EOF
 		t.Line = line
